@@ -55,6 +55,11 @@ CHECKS = {
    "At every quiescent point each client has received, for its calls in order, the reply or - for a streaming call - every item pushed so far in push order with exactly the pushed continues flag, nothing of the calls behind an open stream, and after the stream's end the pipelined calls in order; the other clients equal their own model while a stream is open; after a write failure at any item only that connection stops.",
    "Trusted: as C08; the stream is a harness-controlled queue (item exists from its Push step on).",
    "§3 C10"),
+ "C11": ("exploration", "vcheck",
+   "property-based testing of chains / streaming calls whose items are held while later ones are obtained (proptest, shrinking) + directed sweep of every batch length 200..=1100 bytes; oracle = content snapshot + mutual address consistency of the held slices, run under a harness allocator that poisons and quarantines freed buffer-sized blocks and always moves on realloc; known-finding lane with a fixed witness",
+   "2..6 replies with borrowed string fields (success and error parameters, lengths dialled around the 256-byte steps) are received through Connection::chain_call / a `more` call; every yielded &str is kept and re-read after each later item: its bytes must equal the snapshot and all held slices must lie in one buffer at the offsets of their frames. Judged for class A (the whole batch was read before the first item was yielded); class B is the known finding replystream-item-across-read (witness replayed on every run, class B cases excluded by construction and counted).",
+   "Trusted: native execution - stale memory is made observable by the poisoning / quarantining allocator and the address check rather than by a memory-model tool. Only values borrowed through the reply stream are covered: for the plain receive methods the borrow checker already forbids a second receive while a borrow lives.",
+   "§3 C11"),
  "C06": ("exploration", "vcheck",
    "model-based property testing of chains (proptest, shrinking): generated flag sequences + conforming server scripts + trailing frames + chunkings, stream polled by hand; exhaustive enumeration of all flag sequences up to length 4 x 3 script families x 3 trailing counts x 6 chunkings; oracle = owed-reply model + reference decode + transport poll counter",
    "Chains of 1..6 calls over {plain, oneway, more} are sent through Connection::chain_call/append/send against a scripted transport that then stays silent; the single transport write must equal the calls' reference encodings, the stream must yield exactly the owed replies (as the reference classifies each frame) and then None without polling the transport, and a later receive_reply must still find every trailing frame.",
